@@ -47,6 +47,28 @@ def _run_entry(entry, repo_src, pid, expect_fail=True):
     finally:
         shutil.rmtree(d, ignore_errors=True)
 
+def _seeded_regression(pid, repo_src):
+    import subprocess, sys, glob
+    verif = os.path.dirname(os.path.dirname(os.path.abspath(__file__)))
+    root = os.path.dirname(os.path.abspath(repo_src))
+    dirs = sorted(d for d in glob.glob(os.path.join(verif, 'seeded', pid + '-*')) if os.path.exists(os.path.join(d, 'patch.diff')))
+    def one(d):
+        t = tempfile.mkdtemp(prefix='vxseed_')
+        try:
+            subprocess.run(['rsync', '-a', '--exclude', 'target', '--exclude', '.git', root + '/', t + '/'], check=True)
+            a = subprocess.run(['patch', '-p1', '-s', '-d', t, '-i', os.path.join(d, 'patch.diff')], capture_output=True, text=True)
+            if a.returncode != 0: return dict(id=os.path.basename(d), outcome='inapplicable')
+            r = subprocess.run([sys.executable, '-m', 'vx.check', pid, '--repo-src', os.path.join(t, 'src')], cwd=verif, capture_output=True, text=True, timeout=1500,
+                               env=dict(os.environ, VX_NO_EVIDENCE='1'))
+            line = next((l for l in r.stdout.split('\n') if l.startswith(('VIOLATION', 'UNDECIDED'))), '')
+            return dict(id=os.path.basename(d), outcome='reported' if r.returncode == 1 else 'not_reported', exit=r.returncode, by=('bounded stand-in' if 'bounded-stand-in' in line else 'failed obligation') if r.returncode == 1 else '', line=line[:200])
+        finally:
+            shutil.rmtree(t, ignore_errors=True)
+            import hashlib
+            shutil.rmtree(os.path.join(verif, 'build', 'driver_' + hashlib.sha1(t.encode()).hexdigest()[:10]), ignore_errors=True)
+    with cf.ThreadPoolExecutor(max_workers=4) as ex:
+        return list(ex.map(one, dirs))
+
 def run(pid, spec, repo_src, results):
     out = {}
     cat = importlib.import_module('contracts.catalogue')
@@ -87,6 +109,12 @@ def run(pid, spec, repo_src, results):
         out['cross_unit_links'] = links.check()
     except Exception as e:
         out['cross_unit_links'] = [dict(link='*', status='broken', detail='%s: %s' % (type(e).__name__, str(e)[:200]))]
+    # 4c. regression over the seeded property-breaking changes of this property (seeded/<pid>-*/patch.diff): each must still be reported (exit 1) when applied
+    #     to a scratch copy of the tree under check; a patch that no longer applies (the tree has moved on) is skipped
+    try:
+        out['seeded_regression'] = _seeded_regression(pid, repo_src)
+    except Exception as e:
+        out['seeded_regression'] = [dict(id='*', outcome='error', detail='%s: %s' % (type(e).__name__, str(e)[:200]))]
     # 5. C17: the assumed from_iN contracts (A3) validated against the real rust_decimal code by complete Kani harnesses
     if pid == 'C17':
         try:
